@@ -32,6 +32,7 @@ def run(tier):
     for f in sorted(funcs, key=lambda g: g.display):
         C05.guard_rule(rep, f)
         C05.coupling_rule(rep, f)
+        C05.orientation_rule(rep, f)
     rep.floor("instantiations analysed", 10)
     rep.floor("divisions by an eigenvalue difference", 20)
     rep.floor("coupling terms q * (nIJ ^ nIJ)", 15)
